@@ -14,7 +14,7 @@
    below), the geometric correctness of ray casting (holes_assigned) and the composition
    build_polygon_recovers. *)
 From Coq Require Import ZArith List Bool Permutation Lia.
-From Verif Require Import Geo.Model Geo.JoinProofs Geo.Conserve Geo.Closes Geo.Cut Geo.Orient Geo.Sources Geo.Holes Geo.Annotate Geo.Edges Geo.Rings Geo.GroupIdx Geo.Recover C16.Spec C16.RayQ.
+From Verif Require Import Geo.Model Geo.JoinProofs Geo.Conserve Geo.Closes Geo.Cut Geo.Orient Geo.Sources Geo.Holes Geo.Annotate Geo.Edges Geo.Rings Geo.GroupIdx Geo.Recover Geo.Contain Geo.Assign Geo.Build C16.Spec C16.RayQ.
 Import ListNotations.
 Open Scope Z_scope.
 
@@ -236,11 +236,48 @@ Theorem C16_ray_casting_is_even_odd_rule : forall outer p,
 Proof. exact point_in_ring_is_spec. Qed.
 Print Assumptions C16_ray_casting_is_even_odd_rule.
 
-(* build_polygon_recovers.  FULL STATEMENT (not proved): for every valid scene (Spec.scene_ok +
-   simple, disjoint, strictly nested rings), every valid cut, reversal, member/node order, both
-   coordinate sources and truthful-or-absent orientations,
-   polygons_match scene (polygons of (build_polygon false nodes ways members)) = true.
-   It is evaluated on the implementation's output for every generated scene (judgement 2). *)
+(* 8. build_polygon_recovers.  sc: the scene, a list of (outer ring, its holes), rings as lists of
+      pairwise distinct vertices (>= 3 each, non-zero area), each written from one of its cut
+      vertices; holes contained in their outer as the even-odd rule defines it ([contained]: some
+      vertex of the hole has an odd crossing number w.r.t. its own outer, and every vertex of the
+      hole lies outside the bounding box of every other outer — what the scene generator
+      asserts); the collected outer / inner segments are ANY cut of the rings, any subset
+      reversed, in any member order; members carry no orientation annotation.
+      Then buildPolygon's geometry (single-outer path or multi-outer path, either setting of
+      IncludeInvalidPolygons) is a Polygon / MultiPolygon whose polygons are, up to order,
+      exactly the scene's: the first ring is the outer ring (closed, complete, from some start
+      vertex, counter-clockwise), the other rings are exactly its own holes (each closed,
+      complete, clockwise; every own hole present, no foreign hole), and the total number of
+      hole rings is the number of holes (none duplicated).
+      PARTIAL with respect to the property text in three respects:
+      (a) members WITH truthful orientation annotations: the winding of Ring(o) is proved at the
+          chain level (theorem 4) but not threaded through this composition;
+      (b) the member loop of buildPolygon (ways -> segments) is not part of the statement: the
+          hypothesis speaks about the collected segments; coordinate sources are theorem 6;
+      (c) "strictly inside" is the even-odd rule itself (7c); its equivalence with a geometric
+          definition for simple polygons (Jordan) is not proved. *)
+Theorem C16_build_polygon_recovers_partial : forall incl (c : collected) (sc : gscene),
+  sc <> [] ->
+  NoDup (concat (s_outers sc)) -> NoDup (concat (s_holes sc)) ->
+  Forall (fun r => (3 <= length r)%nat) (s_outers sc ++ s_holes sc) ->
+  (forall r, In r (s_outers sc ++ s_holes sc) -> Orient.shoelace (Rings.close_ring r) <> 0) ->
+  contained sc ->
+  is_cut (map Rings.close_ring (s_outers sc)) (col_outer c) ->
+  is_cut (map Rings.close_ring (s_holes sc)) (col_inner c) ->
+  (forall s, In s (col_outer c ++ col_inner c) -> seg_orient s = 0) ->
+  exists mp sc',
+    geom_polys (build_geometry incl c) = Some mp /\ Permutation sc' sc /\
+    Forall2 poly_recovered sc' mp /\
+    length (concat (map (@tl line) mp)) = length (s_holes sc).
+Proof. exact build_geometry_recovers. Qed.
+Print Assumptions C16_build_polygon_recovers_partial.
+
+(* ray casting does not depend on how the two rings are written (start vertex, direction) *)
+Theorem C16_contains_ring_lines : forall o OL h HL, (1 <= length o)%nat -> (1 <= length h)%nat ->
+  is_ring_line o OL -> is_ring_line h HL ->
+  polygon_contains OL HL = existsb (point_in_ring (Rings.close_ring o)) h.
+Proof. exact contains_ring_lines. Qed.
+Print Assumptions C16_contains_ring_lines.
 
 (* ------------------------------------------------------------------ non-vacuity *)
 Definition ex_ring : line := [(1,1); (5,1); (5,5); (1,5); (1,1)].
@@ -335,3 +372,19 @@ Qed.
 Example ex_ring_line : is_ring_line [(1,1); (5,1); (5,5); (1,5)]
   (ms_line [mkSeg 0 0 false [(1,5)]; mkSeg 2 0 false [(5,5); (5,1); (1,1)]; mkSeg 1 0 true [(1,5)]]).
 Proof. exists 3%nat. split; [simpl; lia|right; reflexivity]. Qed.
+
+(* build_polygon_recovers on a square with a triangular hole, outer cut in two pieces (one
+   reversed), hole in one piece *)
+Definition ex_scene : gscene := [([(1,1); (9,1); (9,9); (1,9)], [[(3,3); (3,5); (5,5)]])].
+Definition ex_collected : collected :=
+  mkCol [mkSeg 0 0 false [(9,9); (9,1); (1,1)] ; mkSeg 0 0 false [(9,9); (1,9); (1,1)]]
+        [mkSeg 0 0 false [(3,3); (3,5); (5,5); (3,3)]] false 2.
+Example ex_contained : contained ex_scene.
+Proof.
+  split.
+  - intros o hs h [E|[]] Hh. inversion E; subst. destruct Hh as [<-|[]]. vm_compute. reflexivity.
+  - intros o hs h o' hs' [E|[]] Hh [E'|[]] Hne. inversion E; inversion E'; subst. congruence.
+Qed.
+Example ex_build : geom_polys (build_geometry false ex_collected) =
+  Some [[[(9,9); (1,9); (1,1); (9,1); (9,9)]; [(3,3); (3,5); (5,5); (3,3)]]].
+Proof. vm_compute. reflexivity. Qed.
